@@ -61,20 +61,40 @@ pub trait LockMonitor: Send + Sync {
 
 static ENABLED: AtomicBool = AtomicBool::new(false);
 static MONITOR: parking_lot::RwLock<Option<Arc<dyn LockMonitor>>> = parking_lot::RwLock::new(None);
+static GENERATION: AtomicU64 = AtomicU64::new(0);
 static NEXT_ID: AtomicU64 = AtomicU64::new(1);
+
+thread_local! {
+    // per thread copy of the monitor, so that lock operations of different threads do not contend on the global slot
+    static CACHE: std::cell::RefCell<(u64, Option<Arc<dyn LockMonitor>>)> = const { std::cell::RefCell::new((0, None)) };
+}
 
 /// install or remove the lock monitor
 pub fn set_monitor(monitor: Option<Arc<dyn LockMonitor>>) {
     let mut slot = MONITOR.write();
     ENABLED.store(monitor.is_some(), Ordering::SeqCst);
     *slot = monitor;
+    GENERATION.fetch_add(1, Ordering::SeqCst);
 }
 
-fn monitor() -> Option<Arc<dyn LockMonitor>> {
-    if ENABLED.load(Ordering::Relaxed) {
-        MONITOR.read().clone()
-    } else {
-        None
+fn with_monitor<R>(f: impl FnOnce(Option<&dyn LockMonitor>) -> R) -> R {
+    if !ENABLED.load(Ordering::Relaxed) {
+        return f(None);
+    }
+    let mut f = Some(f);
+    let result = CACHE.try_with(|cache| {
+        let generation = GENERATION.load(Ordering::Acquire);
+        if cache.borrow().0 != generation {
+            let current = MONITOR.read().clone();
+            *cache.borrow_mut() = (generation, current);
+        }
+        let cached = cache.borrow();
+        (f.take().unwrap())(cached.1.as_deref())
+    });
+    match result {
+        Ok(value) => value,
+        // the thread local cache is already gone while the thread shuts down
+        Err(_) => (f.take().unwrap())(None),
     }
 }
 
@@ -126,9 +146,8 @@ impl<T> RwLock<T> {
     }
 
     fn do_read(&self, kind: Kind, site: &'static Location<'static>) -> Option<RwLockReadGuard<'_, T>> {
-        let mon = monitor();
-        let decision = mon.as_ref().map_or(Decision::Passthrough, |m| {
-            m.acquire(self.id, Self::class(), Mode::Read, kind, site)
+        let decision = with_monitor(|mon| {
+            mon.map_or(Decision::Passthrough, |m| m.acquire(self.id, Self::class(), Mode::Read, kind, site))
         });
         let guard = match decision {
             Decision::Deny if kind != Kind::Block => None,
@@ -136,17 +155,21 @@ impl<T> RwLock<T> {
                 if let Some(guard) = self.inner.try_read() {
                     Some(guard)
                 } else {
-                    if let Some(m) = &mon {
-                        m.mismatch(self.id, Mode::Read);
-                    }
+                    with_monitor(|mon| {
+                        if let Some(m) = mon {
+                            m.mismatch(self.id, Mode::Read);
+                        }
+                    });
                     self.read_passthrough(kind)
                 }
             }
             _ => self.read_passthrough(kind),
         };
-        if let Some(m) = &mon {
-            m.acquired(self.id, Mode::Read, guard.is_some());
-        }
+        with_monitor(|mon| {
+            if let Some(m) = mon {
+                m.acquired(self.id, Mode::Read, guard.is_some());
+            }
+        });
         guard.map(|g| RwLockReadGuard {
             id: self.id,
             inner: Some(g),
@@ -154,9 +177,8 @@ impl<T> RwLock<T> {
     }
 
     fn do_write(&self, kind: Kind, site: &'static Location<'static>) -> Option<RwLockWriteGuard<'_, T>> {
-        let mon = monitor();
-        let decision = mon.as_ref().map_or(Decision::Passthrough, |m| {
-            m.acquire(self.id, Self::class(), Mode::Write, kind, site)
+        let decision = with_monitor(|mon| {
+            mon.map_or(Decision::Passthrough, |m| m.acquire(self.id, Self::class(), Mode::Write, kind, site))
         });
         let guard = match decision {
             Decision::Deny if kind != Kind::Block => None,
@@ -164,17 +186,21 @@ impl<T> RwLock<T> {
                 if let Some(guard) = self.inner.try_write() {
                     Some(guard)
                 } else {
-                    if let Some(m) = &mon {
-                        m.mismatch(self.id, Mode::Write);
-                    }
+                    with_monitor(|mon| {
+                        if let Some(m) = mon {
+                            m.mismatch(self.id, Mode::Write);
+                        }
+                    });
                     self.write_passthrough(kind)
                 }
             }
             _ => self.write_passthrough(kind),
         };
-        if let Some(m) = &mon {
-            m.acquired(self.id, Mode::Write, guard.is_some());
-        }
+        with_monitor(|mon| {
+            if let Some(m) = mon {
+                m.acquired(self.id, Mode::Write, guard.is_some());
+            }
+        });
         guard.map(|g| RwLockWriteGuard {
             id: self.id,
             inner: Some(g),
@@ -242,18 +268,22 @@ impl<T> Drop for RwLockReadGuard<'_, T> {
     fn drop(&mut self) {
         // release the underlying lock first, then report
         drop(self.inner.take());
-        if let Some(m) = monitor() {
-            m.release(self.id, Mode::Read);
-        }
+        with_monitor(|mon| {
+            if let Some(m) = mon {
+                m.release(self.id, Mode::Read);
+            }
+        });
     }
 }
 
 impl<T> Drop for RwLockWriteGuard<'_, T> {
     fn drop(&mut self) {
         drop(self.inner.take());
-        if let Some(m) = monitor() {
-            m.release(self.id, Mode::Write);
-        }
+        with_monitor(|mon| {
+            if let Some(m) = mon {
+                m.release(self.id, Mode::Write);
+            }
+        });
     }
 }
 
